@@ -128,19 +128,19 @@ fn difficulty_line(key: DKey, template: &'static str) {
     core::mem::forget(st);
 }
 
-// @verif property=C11 tier=quick timeout=900 bounds="[Difficulty] 'HPDrainRate:$a' from an arbitrary section state; $a: parse error or every f32" stubs=numbers
+// @verif property=C11,C06,C01 tier=quick timeout=900 bounds="[Difficulty] 'HPDrainRate:$a' from an arbitrary section state; $a: parse error or every f32" stubs=numbers
 oracle_proof!(c11_diff_hp, 24, difficulty_line(DKey::Hp, "HPDrainRate:$a"));
-// @verif property=C11 tier=quick timeout=900 bounds="[Difficulty] 'OverallDifficulty: $a' (padded) from an arbitrary state incl. has_approach_rate; every f32"
+// @verif property=C11,C06,C01 tier=quick timeout=900 bounds="[Difficulty] 'OverallDifficulty: $a' (padded) from an arbitrary state incl. has_approach_rate; every f32"
 oracle_proof!(c11_diff_od, 24, difficulty_line(DKey::Od, "OverallDifficulty: $a"));
-// @verif property=C11 tier=quick timeout=900 bounds="[Difficulty] 'CircleSize:$a' from an arbitrary state; every f32"
+// @verif property=C11,C06,C01 tier=quick timeout=900 bounds="[Difficulty] 'CircleSize:$a' from an arbitrary state; every f32"
 oracle_proof!(c11_diff_cs, 24, difficulty_line(DKey::Cs, "CircleSize:$a"));
-// @verif property=C11 tier=quick timeout=900 bounds="[Difficulty] 'ApproachRate:$a // comment' from an arbitrary state; every f32"
+// @verif property=C11,C06,C01 tier=quick timeout=900 bounds="[Difficulty] 'ApproachRate:$a // comment' from an arbitrary state; every f32"
 oracle_proof!(c11_diff_ar, 34, difficulty_line(DKey::Ar, "ApproachRate:$a // comment"));
-// @verif property=C11 tier=quick timeout=900 bounds="[Difficulty] 'SliderMultiplier:$a' from an arbitrary state; every f64 (clamp [0.4,3.6])"
+// @verif property=C11,C06,C01 tier=quick timeout=900 bounds="[Difficulty] 'SliderMultiplier:$a' from an arbitrary state; every f64 (clamp [0.4,3.6])"
 oracle_proof!(c11_diff_sm, 24, difficulty_line(DKey::Sm, "SliderMultiplier:$a"));
-// @verif property=C11 tier=quick timeout=900 bounds="[Difficulty] 'SliderTickRate:$a' from an arbitrary state; every f64 (clamp [0.5,8])"
+// @verif property=C11,C06,C01 tier=quick timeout=900 bounds="[Difficulty] 'SliderTickRate:$a' from an arbitrary state; every f64 (clamp [0.5,8])"
 oracle_proof!(c11_diff_tr, 24, difficulty_line(DKey::Tr, "SliderTickRate:$a"));
-// @verif property=C11 tier=quick timeout=900 bounds="[Difficulty] unknown key 'SliderTickrate:$a' (wrong case) leaves an arbitrary state untouched" covers=0
+// @verif property=C11,C06,C01 tier=quick timeout=900 bounds="[Difficulty] unknown key 'SliderTickrate:$a' (wrong case) leaves an arbitrary state untouched" covers=0
 oracle_proof!(c11_diff_unknown, 24, difficulty_line(DKey::Unknown, "SliderTickrate:$a"));
 
 // ------------------------------------------------------------------------------------------
@@ -310,25 +310,25 @@ fn general_number_line(key: GKey, template: &'static str) {
     core::mem::forget(st);
 }
 
-// @verif property=C11 tier=quick timeout=900 bounds="[General] 'AudioLeadIn: $a' from an arbitrary state; every i32 / parse error"
+// @verif property=C11,C06,C01 tier=quick timeout=900 bounds="[General] 'AudioLeadIn: $a' from an arbitrary state; every i32 / parse error"
 oracle_proof!(c11_gen_lead_in, 24, general_number_line(GKey::LeadIn, "AudioLeadIn: $a"));
-// @verif property=C11 tier=quick timeout=900 bounds="[General] 'PreviewTime: $a'; every i32"
+// @verif property=C11,C06,C01 tier=quick timeout=900 bounds="[General] 'PreviewTime: $a'; every i32"
 oracle_proof!(c11_gen_preview, 24, general_number_line(GKey::Preview, "PreviewTime: $a"));
-// @verif property=C11 tier=quick timeout=900 bounds="[General] 'SampleVolume: $a'; every i32"
+// @verif property=C11,C06,C01 tier=quick timeout=900 bounds="[General] 'SampleVolume: $a'; every i32"
 oracle_proof!(c11_gen_volume, 24, general_number_line(GKey::Volume, "SampleVolume: $a"));
-// @verif property=C11 tier=quick timeout=900 bounds="[General] 'StackLeniency: $a'; every f32"
+// @verif property=C11,C06,C01 tier=quick timeout=900 bounds="[General] 'StackLeniency: $a'; every f32"
 oracle_proof!(c11_gen_stack, 24, general_number_line(GKey::Stack, "StackLeniency: $a"));
-// @verif property=C11 tier=quick timeout=900 bounds="[General] 'LetterboxInBreaks: $a'; every i32 (flag true only for 1)"
+// @verif property=C11,C06,C01 tier=quick timeout=900 bounds="[General] 'LetterboxInBreaks: $a'; every i32 (flag true only for 1)"
 oracle_proof!(c11_gen_letterbox, 24, general_number_line(GKey::Letterbox, "LetterboxInBreaks: $a"));
-// @verif property=C11 tier=quick timeout=900 bounds="[General] 'SpecialStyle:$a'; every i32"
+// @verif property=C11,C06,C01 tier=quick timeout=900 bounds="[General] 'SpecialStyle:$a'; every i32"
 oracle_proof!(c11_gen_special, 24, general_number_line(GKey::Special, "SpecialStyle:$a"));
-// @verif property=C11 tier=quick timeout=900 bounds="[General] 'WidescreenStoryboard: $a'; every i32"
+// @verif property=C11,C06,C01 tier=quick timeout=900 bounds="[General] 'WidescreenStoryboard: $a'; every i32"
 oracle_proof!(c11_gen_widescreen, 28, general_number_line(GKey::Widescreen, "WidescreenStoryboard: $a"));
-// @verif property=C11 tier=quick timeout=900 bounds="[General] 'EpilepsyWarning: $a'; every i32"
+// @verif property=C11,C06,C01 tier=quick timeout=900 bounds="[General] 'EpilepsyWarning: $a'; every i32"
 oracle_proof!(c11_gen_epilepsy, 24, general_number_line(GKey::Epilepsy, "EpilepsyWarning: $a"));
-// @verif property=C11 tier=quick timeout=900 bounds="[General] 'SamplesMatchPlaybackRate: $a'; every i32"
+// @verif property=C11,C06,C01 tier=quick timeout=900 bounds="[General] 'SamplesMatchPlaybackRate: $a'; every i32"
 oracle_proof!(c11_gen_samples_match, 32, general_number_line(GKey::SamplesMatch, "SamplesMatchPlaybackRate: $a"));
-// @verif property=C11 tier=quick timeout=900 bounds="[General] 'CountdownOffset: $a'; every i32"
+// @verif property=C11,C06,C01 tier=quick timeout=900 bounds="[General] 'CountdownOffset: $a'; every i32"
 oracle_proof!(c11_gen_countdown_offset, 24, general_number_line(GKey::CountdownOffset, "CountdownOffset: $a"));
 
 /// Enumerated keys of [General]: every accepted spelling maps to its value, anything else is an
@@ -381,11 +381,11 @@ fn general_countdown_lines() {
     kani::cover!(true, "reached");
 }
 
-// @verif property=C11 tier=quick timeout=900 bounds="[General] Mode: 6 concrete spellings (0-3, comment-suffixed, 4, 01) from an arbitrary state"
+// @verif property=C11,C06,C01 tier=quick timeout=900 bounds="[General] Mode: 6 concrete spellings (0-3, comment-suffixed, 4, 01) from an arbitrary state"
 oracle_proof!(c11_gen_mode, 24, general_mode_lines());
-// @verif property=C11 tier=quick timeout=900 bounds="[General] SampleSet: 5 concrete spellings (names, number, wrong case) from an arbitrary state"
+// @verif property=C11,C06,C01 tier=quick timeout=900 bounds="[General] SampleSet: 5 concrete spellings (names, number, wrong case) from an arbitrary state"
 oracle_proof!(c11_gen_sample_set, 24, general_sample_set_lines());
-// @verif property=C11 tier=quick timeout=900 bounds="[General] Countdown: 4 spellings + line without colon + unknown key, from an arbitrary state"
+// @verif property=C11,C06,C01 tier=quick timeout=900 bounds="[General] Countdown: 4 spellings + line without colon + unknown key, from an arbitrary state"
 oracle_proof!(c11_gen_countdown, 24, general_countdown_lines());
 
 // ------------------------------------------------------------------------------------------
@@ -427,13 +427,13 @@ fn editor_number_line(key: EKey, template: &'static str) {
     core::mem::forget(st);
 }
 
-// @verif property=C11 tier=quick timeout=900 bounds="[Editor] 'DistanceSpacing: $a' from arbitrary numeric state; every f64"
+// @verif property=C11,C06,C01 tier=quick timeout=900 bounds="[Editor] 'DistanceSpacing: $a' from arbitrary numeric state; every f64"
 oracle_proof!(c11_ed_distance_spacing, 24, editor_number_line(EKey::DistanceSpacing, "DistanceSpacing: $a"));
-// @verif property=C11 tier=quick timeout=900 bounds="[Editor] 'BeatDivisor: $a'; every i32"
+// @verif property=C11,C06,C01 tier=quick timeout=900 bounds="[Editor] 'BeatDivisor: $a'; every i32"
 oracle_proof!(c11_ed_beat_divisor, 24, editor_number_line(EKey::BeatDivisor, "BeatDivisor: $a"));
-// @verif property=C11 tier=quick timeout=900 bounds="[Editor] 'GridSize: $a'; every i32"
+// @verif property=C11,C06,C01 tier=quick timeout=900 bounds="[Editor] 'GridSize: $a'; every i32"
 oracle_proof!(c11_ed_grid_size, 24, editor_number_line(EKey::GridSize, "GridSize: $a"));
-// @verif property=C11 tier=quick timeout=900 bounds="[Editor] 'TimelineZoom: $a'; every f64"
+// @verif property=C11,C06,C01 tier=quick timeout=900 bounds="[Editor] 'TimelineZoom: $a'; every f64"
 oracle_proof!(c11_ed_timeline_zoom, 24, editor_number_line(EKey::TimelineZoom, "TimelineZoom: $a"));
 
 // (Bookmarks: the list is built by `collect()` over a filter -- a Vec whose length depends on
@@ -461,9 +461,9 @@ fn metadata_id_line(set_id: bool, template: &'static str) {
     core::mem::forget(st);
 }
 
-// @verif property=C11 tier=quick timeout=900 bounds="[Metadata] 'BeatmapID:$a' from arbitrary ids; every i32"
+// @verif property=C11,C06,C01 tier=quick timeout=900 bounds="[Metadata] 'BeatmapID:$a' from arbitrary ids; every i32"
 oracle_proof!(c11_meta_id, 24, metadata_id_line(false, "BeatmapID:$a"));
-// @verif property=C11 tier=quick timeout=900 bounds="[Metadata] 'BeatmapSetID: $a'; every i32"
+// @verif property=C11,C06,C01 tier=quick timeout=900 bounds="[Metadata] 'BeatmapSetID: $a'; every i32"
 oracle_proof!(c11_meta_set_id, 24, metadata_id_line(true, "BeatmapSetID: $a"));
 
 // ------------------------------------------------------------------------------------------
@@ -502,9 +502,9 @@ fn events_break_line(template: &'static str) {
     core::mem::forget(st);
 }
 
-// @verif property=C11 tier=quick timeout=900 mem=16 bounds="[Events] '2,$a,$b' after one arbitrary break; each time: parse error or every f64"
+// @verif property=C11,C06,C01 tier=quick timeout=900 mem=16 bounds="[Events] '2,$a,$b' after one arbitrary break; each time: parse error or every f64"
 oracle_proof!(c11_ev_break_num, 24, events_break_line("2,$a,$b"));
-// @verif property=C11 tier=quick timeout=900 mem=16 bounds="[Events] 'Break,$a,$b // c' after one arbitrary break"
+// @verif property=C11,C06,C01 tier=quick timeout=900 mem=16 bounds="[Events] 'Break,$a,$b // c' after one arbitrary break"
 oracle_proof!(c11_ev_break_name, 28, events_break_line("Break,$a,$b // c"));
 
 /// Background / video / sprite precedence over concrete file names.
@@ -540,7 +540,7 @@ fn events_background_lines() {
     kani::cover!(true, "reached");
 }
 
-// @verif property=C11 tier=quick timeout=1200 mem=16 bounds="[Events] background / video / sprite / other lines: 12 concrete lines x concrete previous background (precedence rule)"
+// @verif property=C11,C06,C01 tier=quick timeout=1200 mem=16 bounds="[Events] background / video / sprite / other lines: 12 concrete lines x concrete previous background (precedence rule)"
 oracle_proof!(c11_ev_background, 48, events_background_lines());
 
 /// Colours: R,G,B with optional ignored alpha; wrong field counts and bad numbers are rejected.
@@ -577,11 +577,11 @@ fn colors_line(template: &'static str, fields: usize, named: bool) {
     core::mem::forget(st);
 }
 
-// @verif property=C11 tier=quick timeout=900 mem=16 bounds="[Colours] 'Combo2 : $a,$b,$c' after one combo colour and one named colour; every u8 / parse error per field"
+// @verif property=C11,C06,C01 tier=quick timeout=900 mem=16 bounds="[Colours] 'Combo2 : $a,$b,$c' after one combo colour and one named colour; every u8 / parse error per field"
 oracle_proof!(c11_col_combo3, 24, colors_line("Combo2 : $a,$b,$c", 3, false));
-// @verif property=C11 tier=quick timeout=900 mem=16 bounds="[Colours] 'Combo1: $a,$b,$c,$d' (alpha ignored)" covers=2
+// @verif property=C11,C06,C01 tier=quick timeout=900 mem=16 bounds="[Colours] 'Combo1: $a,$b,$c,$d' (alpha ignored)" covers=2
 oracle_proof!(c11_col_combo4, 24, colors_line("Combo1: $a,$b,$c,$d", 4, false));
-// @verif property=C11 tier=quick timeout=900 mem=16 bounds="[Colours] 'Combo1: $a,$b' (two fields: rejected)" covers=1
+// @verif property=C11,C06,C01 tier=quick timeout=900 mem=16 bounds="[Colours] 'Combo1: $a,$b' (two fields: rejected)" covers=1
 oracle_proof!(c11_col_combo2, 24, colors_line("Combo1: $a,$b", 2, false));
-// @verif property=C11 tier=quick timeout=900 mem=16 bounds="[Colours] 'SliderBorder: $a,$b,$c' overriding the entry of the same name"
+// @verif property=C11,C06,C01 tier=quick timeout=900 mem=16 bounds="[Colours] 'SliderBorder: $a,$b,$c' overriding the entry of the same name"
 oracle_proof!(c11_col_named, 24, colors_line("SliderBorder: $a,$b,$c", 3, true));
